@@ -22,7 +22,7 @@ FLOORS = {'quick': {'view-ctrlpts': 800, 'view-weights': 800, 'view-ctrlptsw': 8
                     'convert': 100, 'grid-weight': 150},
           'thorough': {'view-ctrlpts': 8000, 'view-ctrlptsw': 8000, 'convert': 1000}}
 MANDATORY_TAGS = ['pdim1', 'pdim2', 'pdim3', 'op:restructure', 'op:ctrlpts', 'op:weights', 'op:ctrlptsw', 'op:set_ctrlpts', 'op:scaleW',
-                  'read-then-write', 'grid', 'convert', 'files:non-square', 'write-back-kept-weights', 'write-back-kept-ctrlpts', 'convert:unnormalized', 'grid:bumps-after-read']
+                  'read-then-write', 'grid', 'convert', 'files:non-square', 'write-back-kept-weights', 'write-back-kept-ctrlpts', 'convert:unnormalized', 'grid:bumps-after-read', 'resize:ctrlpts-other-size', 'resize:weights-wrong-length']
 TECHNIQUE = ("runtime monitoring: shadow-model oracle (P, W) compared with all three views after every step of seeded "
              "setter/getter histories; exact-product oracles on the helper conversions; reference-model evaluation for "
              "conversions and weight scaling")
@@ -87,8 +87,70 @@ def check_history(case, ctx):
         views_ok(ctx, o, P, W, 'construction')
     last_read = False
     for step in range(case['steps']):
-        op = rng.choice(['ctrlpts', 'weights', 'ctrlptsw', 'set_ctrlpts', 'scaleW', 'read', 'read', 'restructure'])
+        op = rng.choice(['ctrlpts', 'weights', 'ctrlptsw', 'set_ctrlpts', 'scaleW', 'read', 'read', 'restructure', 'resize'])
         ctx.tag('op:' + op)
+        if op == 'resize':
+            if pdim == 3:
+                continue
+            last_read = False
+            from geomdl import knotvector as KV
+            from geomdl.exceptions import GeomdlException
+            if rng.random() < 0.35:
+                # a weights vector of the wrong length cannot be applied: it must be refused (or at least must not drop control points)
+                m = rng.choice([k for k in (n - 2, n - 1, n + 1, n + 2) if k >= 1])
+                ctx.tag('resize:weights-wrong-length')
+                try:
+                    o.weights = [rng.uniform(0.2, 5) for _ in range(m)]
+                except (ValueError, GeomdlException):
+                    pass
+                if not ctx.check(len(o.ctrlptsw) == n, 'resize/weights-dropped-points', 'assigning %d weights to a shape with %d control '
+                                 'points left it with %d' % (m, n, len(o.ctrlptsw)), what='resize'):
+                    return
+                if not views_ok(ctx, o, P, W, 'step %d (refused weights vector of length %d)' % (step, m)):
+                    return
+                continue
+            # a control net of a different size assigned through the unweighted view (sizes first for surfaces, knot vectors after)
+            degs = G.degrees_of(o)
+            sizes2 = [max(p_ + 1, s_ + rng.choice([-1, 1, 2])) for p_, s_ in zip(degs, G.sizes_of(o))]
+            if sizes2 == G.sizes_of(o):
+                continue
+            m = 1
+            for s_ in sizes2:
+                m *= s_
+            P2 = [[rng.uniform(-10, 10) for _ in range(dim)] for _ in range(m)]
+            ctx.tag('resize:ctrlpts-other-size')
+            refused = False
+            try:
+                if pdim == 2:
+                    o.ctrlpts_size_u, o.ctrlpts_size_v = sizes2
+                o.ctrlpts = [list(p) for p in P2]
+            except (ValueError, GeomdlException):
+                refused = True
+            if refused:
+                # an explicit refusal is acceptable; the history ends here (the object may be half-resized for surfaces)
+                ctx.ok('resize')
+                return
+            got = [list(p) for p in o.ctrlpts]
+            if not ctx.check(len(got) == m and close(got, P2), 'resize/ctrlpts-truncated', 'assigned %d unweighted control points to a rational '
+                             'shape that had %d; reading ctrlpts back gives %d points' % (m, n, len(got)), what='resize'):
+                return
+            W = list(o.weights)
+            P, n = P2, m
+            if not ctx.check(len(W) == m and all(w > 0 for w in W), 'resize/weights-length', 'after the resize weights has %d entries for %d points'
+                             % (len(W), m), what='resize'):
+                return
+            kept.clear()
+            sd = dict(sd, sizes=sizes2)
+            for d_, (p_, s_) in enumerate(zip(degs, sizes2)):
+                kv = KV.generate(p_, s_)
+                if pdim == 1:
+                    o.knotvector = kv
+                else:
+                    setattr(o, 'knotvector_' + 'uv'[d_], kv)
+            writes += 1
+            if not views_ok(ctx, o, P, W, 'step %d (resize to %r)' % (step, sizes2)):
+                return
+            continue
         if op != 'read' and last_read:
             ctx.tag('read-then-write')
         if op == 'read':
